@@ -1815,7 +1815,11 @@ func streamFault(g *G) { // C16
 			grec = k
 		}
 		g.emit("group %d %s 0 %%_ %%- 0 %%- %%- %%- 0 0", gid, grec)
-		g.emit("group-new %d %d %s pv:%%_:v1", gid, rid+1, encB("gn"))
+		if g.chance(0.5) { // Group.New with an option of its own: the group's options (recovery among them) still apply
+			g.emit("group-new %d %d %s pv:%%_:v1 %s", gid, rid+1, encB("gn"), encKVs([]kv{{"[0-9]+", "5"}}))
+		} else {
+			g.emit("group-new %d %d %s pv:%%_:v1", gid, rid+1, encB("gn"))
+		}
 		g.emit("handle %d /a 3 4 %s", rid+1, encL([]string{"GET"}))
 		g.emit("hosts %d %s", 900+gid, encL([]string{"only.example.org"}))
 		g.emit("group-add %d %d hosts:%d", gid, rid, 900+gid)
@@ -2054,6 +2058,26 @@ func streamFacade(g *G) { // C19: the same program through façades (router A) a
 				// the router-wide method set after the façade call and after its desugaring (OPTIONS *, 405 on *)
 				g.serveLine("serve", a, "OPTIONS", "*", "", nil)
 				g.serveLine("serve", b, "OPTIONS", "*", "", nil)
+			}
+		}
+		if g.chance(0.3) {
+			// three sibling parameters of ONE kind whose constraints overlap (the first registered wins a path two of them
+			// accept); a façade on one of them is cleaned, the desugared program removes that route: the survivors keep
+			// their order whichever position the cleaned one had
+			sib := []string{"/u/{id:\\d+}", "/u/{slug:[a-z0-9-]+}", "/u/{name:\\w+}", "/u/{any:.+}"}
+			g.r.Shuffle(3, func(i, j int) { sib[i], sib[j] = sib[j], sib[i] })
+			for _, p := range sib {
+				both(fmt.Sprintf("handle %d %s %d %%- %s", a, encB(p), nextH, encL([]string{"GET"})), fmt.Sprintf("handle %d %s %d %%- %s", b, encB(p), nextH, encL([]string{"GET"})))
+				nextH++
+			}
+			victim := sib[g.intn(2)] // never the last of the three: something moves into its place
+			g.emit("facade %d %d prefix - %s %%-", nextF, a, encB(victim))
+			both(fmt.Sprintf("fclean %d", nextF), fmt.Sprintf("remove %d %s %%-", b, encB(victim)))
+			nextF++
+			both(fmt.Sprintf("routes %d", a), fmt.Sprintf("routes %d", b))
+			for _, path := range []string{"/u/42", "/u/abc", "/u/a-b", "/u/a_b", "/u/A.b"} {
+				g.serveLine("serve", a, "GET", path, "", nil)
+				g.serveLine("serve", b, "GET", path, "", nil)
 			}
 		}
 		wide := ""
